@@ -181,8 +181,11 @@ type Res struct {
 	Env *Env
 }
 
+// ctxLang reads the language the way an application does: through the library's own helper
+// (lang.LanguageFromContext asserts the type without checking - a context that carries anything but
+// a lang.Language value panics there, as it would in application code).
 func ctxLang(ctx context.Context) string {
-	if l, ok := ctx.Value("Language").(lang.Language); ok {
+	if l, ok := lang.LanguageFromContext(ctx); ok {
 		return l.Code
 	}
 	return ""
